@@ -31,8 +31,8 @@ pub enum Sc {
     Idle { tc: u64, ts: u64, keep_alive: u64, mode: u8 },
     /// representability of max_idle_timeout: index into the value table; side
     IdleRepr { value: u8, side: u8 },
-    /// server allow_migration on/off; the client moves to a new address
-    Migration { allow: bool },
+    /// server allow_migration on / off / never called (documented default: enabled); the client moves to a new address
+    Migration { allow: Option<bool> },
     /// reload_config: the new config has a different identity and idle timeout
     Reload,
     /// reload_config on real loopback sockets, without and with re-binding the socket: connections made afterwards see the new
@@ -63,7 +63,7 @@ impl Sc {
             "builder_path" => Sc::BuilderPath { path: u("path") as u8 },
             "idle" => Sc::Idle { tc: v["tc"].as_str().unwrap().parse().unwrap(), ts: v["ts"].as_str().unwrap().parse().unwrap(), keep_alive: u("keep_alive"), mode: u("mode") as u8 },
             "idle_repr" => Sc::IdleRepr { value: u("value") as u8, side: u("side") as u8 },
-            "migration" => Sc::Migration { allow: v["allow"].as_bool().unwrap() },
+            "migration" => Sc::Migration { allow: v["allow"].as_bool() },
             "reload_real" => Sc::ReloadReal { rebind: v["rebind"].as_bool().unwrap_or(false) },
             _ => Sc::Reload,
         }
@@ -555,9 +555,14 @@ fn idle_repr(value: u8, side: u8) -> Result<String, String> {
     }
 }
 
-async fn migration(allow: bool) -> Result<String, String> {
+async fn migration(allow: Option<bool>) -> Result<String, String> {
     let world = World::new(83);
-    let scfg = ServerConfig::builder().with_bind_default(0).with_identity(identity()).max_idle_timeout(Some(Duration::from_secs(4))).unwrap().allow_migration(allow).build();
+    let scfg = ServerConfig::builder().with_bind_default(0).with_identity(identity()).max_idle_timeout(Some(Duration::from_secs(4))).unwrap();
+    let scfg = match allow {
+        Some(a) => scfg.allow_migration(a).build(),
+        None => scfg.build(),
+    };
+    let allow = allow.unwrap_or(true);
     let ccfg = ClientConfig::builder().with_bind_default().with_no_cert_validation().max_idle_timeout(Some(Duration::from_secs(4))).unwrap().build();
     let server_ep = world.wt_server_at(server_addr(), scfg);
     let mut q = quic_endpoint(&world.net, client_addr(), ccfg.quic_endpoint_config().clone(), None, 5);
@@ -786,8 +791,9 @@ pub fn scenarios(tier: Tier) -> Vec<Sc> {
             }
         }
     }
-    out.push(Sc::Migration { allow: true });
-    out.push(Sc::Migration { allow: false });
+    out.push(Sc::Migration { allow: Some(true) });
+    out.push(Sc::Migration { allow: Some(false) });
+    out.push(Sc::Migration { allow: None });
     out.push(Sc::Reload);
     out.push(Sc::ReloadReal { rebind: false });
     out.push(Sc::ReloadReal { rebind: true });
@@ -802,7 +808,7 @@ pub fn run_check(args: &Args) -> i32 {
     let rep = Report::new(
         args,
         "exploration",
-        "complete configuration matrices: binding (server/client x 13 ways: six IpBindConfig presets, explicit v4 / v6 address, with_bind_address_v6 x three dual-stack settings, with_bind_default, pre-bound socket; observed on the socket the endpoint would bind and through Endpoint::server / client + local_addr on real OS sockets); TLS defaults (ALPN list, protocol versions) and ALPN negotiation against raw peers offering h3 / hq-29 / both / nothing in both roles; every builder path (identity, custom TLS, custom transport, custom TLS + transport, prebuilt QUIC config, custom transport on one side only) handshaking on the simulated network, the custom transport's own idle timeout and keep-alive honoured over 30 s of silence; idle timeout on each side in {builder default, 1 s, 5 s, (10 min), disabled} x keep-alive off / T/3 x network partition / idle healthy network, measured in virtual time; representability of max_idle_timeout (0, 1 ms, 30 s, 2^62-1 ms, 2^62 ms, 2^62+1, 2^63, 2^64-1, 2^64, 2^64+1500, 2^64+2^62-1, 3*2^64+7, 999*2^64+30000 ms, 2^62 s, 2^63 s, u64::MAX s, Duration::MAX); client migration with allow_migration on / off; reload_config (identity and transport of new connections, established connection undisturbed; on real loopback sockets also with the socket re-bound)",
+        "complete configuration matrices: binding (server/client x 13 ways: six IpBindConfig presets, explicit v4 / v6 address, with_bind_address_v6 x three dual-stack settings, with_bind_default, pre-bound socket; observed on the socket the endpoint would bind and through Endpoint::server / client + local_addr on real OS sockets); TLS defaults (ALPN list, protocol versions) and ALPN negotiation against raw peers offering h3 / hq-29 / both / nothing in both roles; every builder path (identity, custom TLS, custom transport, custom TLS + transport, prebuilt QUIC config, custom transport on one side only) handshaking on the simulated network, the custom transport's own idle timeout and keep-alive honoured over 30 s of silence; idle timeout on each side in {builder default, 1 s, 5 s, (10 min), disabled} x keep-alive off / T/3 x network partition / idle healthy network, measured in virtual time; representability of max_idle_timeout (0, 1 ms, 30 s, 2^62-1 ms, 2^62 ms, 2^62+1, 2^63, 2^64-1, 2^64, 2^64+1500, 2^64+2^62-1, 3*2^64+7, 999*2^64+30000 ms, 2^62 s, 2^63 s, u64::MAX s, Duration::MAX); client migration with allow_migration on / off / never called (documented default: enabled); reload_config (identity and transport of new connections, established connection undisturbed; on real loopback sockets also with the socket re-bound)",
     );
     rep.assume("bind rows use real UDP sockets on the loopback / wildcard addresses; IPv6 rows are reported as uncovered when ::1 cannot be bound; the OS default for IPV6_V6ONLY is read from /proc/sys/net/ipv6/bindv6only");
     let scs = scenarios(args.tier);
